@@ -267,7 +267,7 @@ def mon_pubsub(session, ev, name, before, out_i, crash_i):
     import funcs as Fn
     ref = session.__dict__.setdefault('pubsub_ref', {'ch': {}, 'pat': {}})     # name -> ordered list of conns
     c, fields = ev[1], ev[2]
-    if crash_i is not None or (before is not None and before['conns'][c]['dead']):
+    if (crash_i is not None and name != 'exec') or (before is not None and before['conns'][c]['dead']):
         return     # an escaped exception is judged by C04; a dead connection is outside this property
     mine = out_i.get(c, [])
     # drop closed connections (their subscriptions disappear with the next processed command)
@@ -333,18 +333,23 @@ def mon_pubsub(session, ev, name, before, out_i, crash_i):
         for k in set(list(pushes) + [x for x in out_i if x != c]):
             if out_i.get(k, []) != pushes.get(k, []):
                 add(session, 'C10', 'publish_delivery', 'connection %d got %r expected %r' % (k, out_i.get(k, []), pushes.get(k, [])))
-    elif name == 'exec' and len(mine) >= 1:
+    elif name == 'exec':
         # publications inside MULTI are delivered at EXEC: replay the queued pub/sub commands on the reference
         q = session.__dict__.get('exec_queue', {}).pop(c, [])
+        if before['conns'][c]['tx'] == '-' or (len(mine) == 1 and (mine[0] is None or isinstance(mine[0], RawError))):
+            return      # no transaction, aborted by WATCH, or EXECABORT: nothing ran
         allp = {}
+        has_sub = any(Cn.name_of(qf) in SUBFAMILY for qf in q)
         for qf in q:
             qn = Cn.name_of(qf)
-            if qn == 'publish' and len(qf) == 3:
+            if qn in SUBFAMILY:
+                do(qn, qf[1:], None, c)   # they take effect (and then EXEC crashes: known finding KF-1, judged by C04)
+            elif qn == 'publish' and len(qf) == 3 and not has_sub:
                 _, pushes = do(qn, qf[1:], None, c)
                 for k, v in pushes.items():
                     allp.setdefault(k, []).extend(v)
-            elif qn in SUBFAMILY:
-                return   # known finding territory (F11); not judged here
+        if has_sub:
+            return
         for k in set(list(allp) + [x for x in out_i if x != c]):
             if k != c and out_i.get(k, []) != allp.get(k, []):
                 add(session, 'C10', 'publish_in_multi_delivered_at_exec', 'connection %d got %r expected %r' % (k, out_i.get(k, []), allp.get(k, [])))
